@@ -706,6 +706,50 @@ fn run_case(out: &mut Out, kind: YKind, want: &OAst, text: &str, tag: &str, desc
                         views = spec_views(&g).ok();
                     }
                     api_checks(&g, text, &want, &mut fails);
+                    // the `FromStr` entry point (kind given by a `%grmtools` section) builds the same grammar
+                    // and its spans index the text the user wrote, section included
+                    if id % 3 == 0 {
+                        let kname = match kind {
+                            YKind::Orig(0) => "Original(GenericParseTree)",
+                            YKind::Orig(1) => "Original(NoAction)",
+                            YKind::Orig(_) => "Original(UserAction)",
+                            YKind::Grmtools => "Grmtools",
+                            YKind::Eco => "Eco",
+                        };
+                        let hdr = format!("%grmtools{{yacckind: {}}}\n", kname);
+                        let text2 = format!("{}{}", hdr, text);
+                        match guarded(AssertUnwindSafe(|| <YaccGrammar<u32> as std::str::FromStr>::from_str(&text2))) {
+                            Ok(Ok(g2)) => {
+                                let mut f2 = Vec::new();
+                                if dump(&g2, false, &mut f2) != dump(&g, false, &mut f2) {
+                                    fails.push("from_str-differs: YaccGrammar::from_str with a %grmtools section builds a different grammar than YaccGrammar::new".to_string());
+                                }
+                                for r in &want.rules {
+                                    if let Some(ri) = g2.rule_idx(&r.name) {
+                                        let sp = g2.rule_name_span(ri);
+                                        if slice(&text2, sp) != Some(r.name.as_str()) {
+                                            fails.push(format!("from_str-span: rule_name_span({}) = {:?} spells {:?} in the text given to from_str, not {:?}", usize::from(ri), sp, slice(&text2, sp), r.name));
+                                            break;
+                                        }
+                                    }
+                                }
+                                for (n, _) in &want.tokens {
+                                    if let Some(ti) = g2.token_idx(n) {
+                                        match g2.token_span(ti) {
+                                            Some(sp) if slice(&text2, sp) == Some(n.as_str()) => {}
+                                            other => {
+                                                fails.push(format!("from_str-span: token_span({}) = {:?} does not spell {:?} in the text given to from_str", usize::from(ti), other, n));
+                                                break;
+                                            }
+                                        }
+                                    }
+                                }
+                                out.count("from_str_checked");
+                            }
+                            Ok(Err(e)) => fails.push(format!("from_str-rejects what new accepts: {:?}", e.iter().map(|x| x.to_string()).collect::<Vec<_>>())),
+                            Err(e) => fails.push(format!("from_str panicked: {}", e)),
+                        }
+                    }
                     // the action kind of Original does not influence the grammar object
                     if let YKind::Orig(s) = kind {
                         let mut f2 = Vec::new();
